@@ -693,3 +693,81 @@ def search_reduce(ctx, c, rng, why):
                               {"fn": c["fn"], "dtype": c["dtype"], "shape": list(shp), "axis": str(c["axis"]), "keepdims": c["keepdims"], "acc": c["acc"], "data": data.tolist()})
                 return True
     return False
+
+
+# --------------------------------------------------------------------------------------
+# tie D on compositions: whole traced programs whose graph stays inside the modelled operator set
+# --------------------------------------------------------------------------------------
+def _prog_worker(job):
+    """Generate one integer/boolean program, trace it with every input a placeholder (symbolic dims), export, render each
+    step's output and run the model in onnxruntime on the generation-time inputs."""
+    from . import progs
+    seed, = job
+    rng = random.Random(f"tgraph-prog/{seed}")
+    prog = progs.generate(rng, seed=seed, families=["index", "layout", "layout", "reduce", "index", "shortcut"],
+                          dtypes=["int64", "int64", "int32", "bool", "uint8", "int16"], n_steps=(1, 4),
+                          sizes={"A": rng.choice([0, 1, 2, 3]), "B": rng.choice([1, 2, 3])})
+    if prog is None:
+        return None
+    n = len(prog["inputs"])
+    if any(i["dtype"] not in CODE for i in prog["inputs"]):
+        return None
+    try:
+        vals, arrs, res = progs.trace(prog, set(range(n)), "symbolic", prog["gen_sizes"], seed)
+        keep = [(j, r) for j, r in enumerate(res) if impl.dtname(r.dtype) in CODE]
+        if not keep:
+            return None
+        ins = {f"i{k}": arrs[k] for k in range(n)}
+        outs = {f"o{j}": r for j, r in keep}
+        model = ndx.build(ins, outs)
+        feeds = {}
+        for k in range(n):
+            feeds.update(impl.feed(f"i{k}", vals[k], prog["inputs"][k]["dtype"]))
+        got = impl.run_model(model, feeds, outs)
+    except Exception:
+        return None
+    mapping = {f"i{k}": f"in{k}" for k in range(n)}
+    items = []
+    for j, r in keep:
+        try:
+            term = render(model, f"o{j}", mapping)
+        except Unsupported as e:
+            items.append({"step": j, "op": prog["steps"][j]["op"], "unsupported": str(e)})
+            continue
+        v = got[f"o{j}"]
+        items.append({"step": j, "op": prog["steps"][j]["op"], "term": term, "shape": list(v.shape),
+                      "values": [int(q) for q in np.asarray(v).astype(object).reshape(-1).tolist()] if v.dtype != np.bool_ else np.asarray(v).astype(int).reshape(-1).tolist()})
+    inputs = []
+    for k in range(n):
+        v = np.asarray(vals[k])
+        inputs.append((list(v.shape), v.astype(int).reshape(-1).tolist() if v.dtype == np.bool_ else [int(q) for q in v.astype(object).reshape(-1).tolist()]))
+    return {"desc": progs.describe(prog), "inputs": inputs, "items": items}
+
+
+def run_programs(ctx, n: int):
+    from . import tables
+    jobs = [(ctx.seed * 7919 + k,) for k in range(n)]
+    recs = [r for _, r in tables.pairs(ctx, jobs, tables.pmap(_prog_worker, jobs, chunk=4)) if r and not isinstance(r, tables.Crashed)]
+    lines, meta = [], []
+    unsupported = {}
+    for rec in recs:
+        ins = ";".join(f"{_tok(sh)}:{_ints(vs)}" for sh, vs in rec["inputs"])
+        for it in rec["items"]:
+            if "unsupported" in it:
+                unsupported[it["unsupported"]] = unsupported.get(it["unsupported"], 0) + 1
+                continue
+            if len(it["term"]) > 20000:
+                continue
+            lines.append(f"tg_evald {ins} {it['term']}")
+            meta.append((rec["desc"], it))
+    ans = common.model(lines)
+    agree = 0
+    for a, (desc, it) in zip(ans, meta):
+        exp = f"ok {_tok(it['shape'])} {_ints(it['values'])}"
+        ctx.case(("tgraph-program", desc, it["step"]), True, {"program": desc, "step": it["step"], "term": it["term"][:200]} if len(ctx.samples) < 12 else None)
+        if a != exp:
+            ctx.corr_broken("tgraph-eval-vs-onnxruntime/program", {"program": desc, "step": it["step"], "op": it["op"], "lean": a[:300], "onnxruntime": exp[:300], "term": it["term"][:600]})
+        else:
+            agree += 1
+    ctx.count("tgraph-program-steps-lean-eval-agrees-with-onnxruntime", agree)
+    ctx.extra["tgraph_program_steps_outside_operator_set"] = dict(sorted(unsupported.items(), key=lambda kv: -kv[1])[:12])
